@@ -3,7 +3,9 @@
 Theorem side: Props/C16.v (reading back what the model of DFA::to_dot prints gives the prescribed graph,
 outside the known-finding classes; the label codec; witnesses that the pinned escaping fails).
 Tie T1: Model.Dot.of_dfa / of_regex (extracted) on Rust's own MIN automaton / REGEX arena must give
-byte-for-byte the DFADOT / REGEXDOT texts, 4 shells.
+byte-for-byte the DFADOT / REGEXDOT texts, 4 shells.  The model is one definition with a flag per
+proposed patch: a text equal to the pinned instance or to the instance with some of the patches applied
+ties (evidence: model_variant_matched); known findings are attributed only on the pinned instance.
 Direct judgement: Spec.DotRead.read (extracted; the only judge: there is no `dot` here) on *Rust's* two
 texts must succeed; the graph read from the --dfa text must be the one Spec.DotSpec.graph_of_dfa prescribes
 for Rust's MIN automaton (node set, shapes, labels that render back to the item's text, edge multiset,
@@ -11,6 +13,7 @@ clusters numbered as the TABLES stage numbers the within-word automata); every i
 label a node of the graph read from the --regex text (inside the right cluster).  A violation is
 attributed to a known-finding class only if (a) the tie holds for that input, (b) the extracted Coq
 predicate of the class holds and (c) the model with exactly that mechanism patched is judged correct."""
+import collections
 import os
 import tempfile
 
@@ -163,10 +166,12 @@ def run(ctx, res):
             st = d[sh]
             if st.get('REGEX', '').startswith('(ok ') and 'REGEXDOT' in st:
                 reqs.append('dotregex pinned %s' % st['REGEX']); index.append((i, sh, 'rx-model'))
+                reqs.append('dotregex patched %s' % st['REGEX']); index.append((i, sh, 'rx-model-patched'))
                 reqs.append('dotjudgeregex %s %s' % (st['REGEX'], st['REGEXDOT'])); index.append((i, sh, 'rx-judge'))
             if st.get('MIN', '').startswith('(ok ') and 'DFADOT' in st:
                 mn = st['MIN'][4:-1]
                 reqs.append('dotdfa pinned %d %s' % (BASE[sh], mn)); index.append((i, sh, 'dfa-model'))
+                reqs.append('dotdfa patched %d %s' % (BASE[sh], mn)); index.append((i, sh, 'dfa-model-patched'))
                 reqs.append('dotjudgedfa %d %s %s' % (BASE[sh], mn, st['DFADOT'])); index.append((i, sh, 'dfa-judge'))
                 if sh == 'bash':
                     reqs.append('dotwf %s' % mn); index.append((i, sh, 'wf'))
@@ -174,8 +179,17 @@ def run(ctx, res):
                     reqs.append('dotsubids %d %s' % (BASE[sh], mn)); index.append((i, sh, 'subids'))
     outs = model.run(reqs)
     by = dict(zip(index, outs))
-    # second round: classification of what failed
+    # second round: classification of what failed; for texts that are neither the pinned nor the fully
+    # patched model's, the model with each subset of the patches (a partially patched tree)
     creqs, cindex = [], []
+    for (i, sh, k), o in list(by.items()):
+        st = dumps[i][sh]
+        if k == 'dfa-model' and o != '(ok %s)' % st['DFADOT'] and by[(i, sh, 'dfa-model-patched')] != '(ok %s)' % st['DFADOT']:
+            for e in ('true', 'false'):
+                for sa in ('true', 'false'):
+                    for d0 in ('true', 'false'):
+                        creqs.append('dotdfa (v %s %s %s false) %d %s' % (e, sa, d0, BASE[sh], st['MIN'][4:-1]))
+                        cindex.append((i, sh, 'dfa-model-%s%s%s' % (e[0], sa[0], d0[0])))
     for (i, sh, k), o in by.items():
         st = dumps[i][sh]
         if k == 'dfa-judge' and o != '(ok)':
@@ -190,6 +204,7 @@ def run(ctx, res):
                 'and non-ASCII printable characters, with several within-word automata, x 4 shells; non-trivial = accepted grammar '
                 'whose automaton has a within-word automaton or an item text containing a quote, backslash or brace')
     nontrivial = set()
+    variants = collections.Counter()
     accepted = 0
     sample_budget = 6
     for i, text in enumerate(texts):
@@ -208,6 +223,11 @@ def run(ctx, res):
                 res.evaluations += 1
                 mod = by[(i, sh, 'rx-model')]
                 tie = mod == '(ok %s)' % st['REGEXDOT']
+                variants['regex:pinned' if tie else 'regex:other'] += 1
+                if not tie and by[(i, sh, 'rx-model-patched')] == '(ok %s)' % st['REGEXDOT']:
+                    tie = True
+                    variants['regex:other'] -= 1
+                    variants['regex:patched'] += 1
                 judge = by[(i, sh, 'rx-judge')]
                 if tie:
                     res.traces_validated += 1
@@ -215,7 +235,7 @@ def run(ctx, res):
                     cls = None
                     c = sexp.parse(by[(i, sh, 'rx-class')])
                     known = str(c[0][1]) == 'true'
-                    if tie and known and str(c[1][1]) != 'ok' and str(c[2][1]) == 'ok':
+                    if mod == '(ok %s)' % st['REGEXDOT'] and known and str(c[1][1]) != 'ok' and str(c[2][1]) == 'ok':
                         cls = 'dot_regex_label_raw'
                     what = ('--regex file is not valid DOT' if judge == '(readfail)'
                             else '--regex file lacks a labelled node for an item: ' + judge[:200])
@@ -230,6 +250,19 @@ def run(ctx, res):
                 accepted += 1
                 mod = by[(i, sh, 'dfa-model')]
                 tie = mod == '(ok %s)' % st['DFADOT']
+                if tie:
+                    variants['dfa:pinned'] += 1
+                elif by[(i, sh, 'dfa-model-patched')] == '(ok %s)' % st['DFADOT']:
+                    tie = True
+                    variants['dfa:patched'] += 1
+                else:
+                    for fl in ('ttt', 'ttf', 'tft', 'tff', 'ftt', 'ftf', 'fft', 'fff'):
+                        if by.get((i, sh, 'dfa-model-' + fl)) == '(ok %s)' % st['DFADOT']:
+                            tie = True
+                            variants['dfa:partial-' + fl] += 1
+                            break
+                    else:
+                        variants['dfa:other'] += 1
                 judge = by[(i, sh, 'dfa-judge')]
                 if tie:
                     res.traces_validated += 1
@@ -242,7 +275,7 @@ def run(ctx, res):
                     known = dict(labels=str(c[0][1]) == 'true', subacc=str(c[0][2]) == 'true')
                     fixes = {str(x[0]): str(x[1]) for x in c[1:]}
                     classes = []
-                    if tie and fixes['pinned'] != 'ok':
+                    if mod == '(ok %s)' % st['DFADOT'] and fixes['pinned'] != 'ok':
                         if known['labels'] and fixes['esc'] == 'ok':
                             classes = ['dot_dfa_label_escaping']
                         elif known['subacc'] and fixes['subacc'] == 'ok':
@@ -279,7 +312,10 @@ def run(ctx, res):
                     sample_budget -= 1
                     res.samples.append(dict(grammar=text.decode('utf-8', 'replace'), shell=sh, dfadot=st['DFADOT'][:600], judge=judge))
     res.nontrivial = len(nontrivial)
+    # replays are written for the first few violations: put first those on inputs outside every known class
+    res.violations.sort(key=lambda v: 0 if (v.cls is None and '(known true' not in str(v.replay.get('classification', ''))) else 1)
     res.extra['accepted_grammar_shell_pairs'] = accepted
+    res.extra['model_variant_matched'] = dict(variants)
     res.extra['stage'] = 'DFA::to_dot on the minimised automaton, Regex::to_dot; files of the complgen binary'
 
     # ---------------- the binary writes what the library produced
